@@ -58,6 +58,23 @@ pub fn vocab(lang: &str) -> Vocab {
         for n in 21..100 { if n % 10 != 0 { let w = cardinal(lang, n, &mut r); if w.len() == 1 { put(3, w); } } }
         for n in [100u64, 1000, 1_000_000, 1_000_000_000, 200, 2000, 2_000_000, 3_000_000_000, 1100, 100_000] { for _ in 0..3 { let w = cardinal(lang, n, &mut r); put(4, w.into_iter().flat_map(|x| x.split('-').map(|y| y.to_string()).collect::<Vec<_>>()).collect()); } }
         for n in (1..=31).chain([40, 50, 60, 70, 80, 90, 100, 1000]) { for _ in 0..2 { if let Some((w, _)) = ordinal(lang, n, &mut r) { put(5, vec![w.last().unwrap().clone()]); } } }
+        // every spelling variant of the small numbers (so that rare accepted forms such as `fourty` /
+        // `fourtieth`, `septante`, `veintiún`, `één` are always in the pools, not only when two random
+        // draws happen to produce them)
+        for n in 0..100u64 {
+            for v in all_variants(lang, n) {
+                let ws: Vec<String> = v.split(' ').map(|x| x.to_string()).collect();
+                let k = if n < 10 { 0 } else if n < 20 { 1 } else if n % 10 == 0 { 2 } else { 3 };
+                if ws.len() == 1 { put(k, ws); } else if k == 3 { for w in ws { if w.contains('-') { put(3, vec![w]); } } }
+            }
+            let mut e = crate::choose::Enumerate::new();
+            let mut guard = 0;
+            loop {
+                if let Some((w, _)) = ordinal(lang, n.max(1), &mut e) { put(5, vec![w.last().unwrap().clone()]); }
+                guard += 1;
+                if !e.advance() || guard > 400 { break; }
+            }
+        }
         put(6, vec![zero_word(lang).to_string()]); if lang == "en" { put(6, vec![s("o"), s("nought")]); }
         // published number words the ordinal spellers never emit on their own (time-unit homographs)
         if lang == "es" || lang == "pt" { put(5, vec![s("segundo"), s("segundos")]); }
